@@ -122,7 +122,7 @@ def c11_mutexwrapped(rep, tier, seed):
     cov['mutexwrapped_world'] = {'runs': runs, 'logical_steps': steps, 'distinct_histories': len(digests),
                                  'runs_with_lock_contention': len(nontrivial), 'distinct_interleavings': len(ilh), 'probes': probes,
                                  'rule': '2-3 threads, 1-5 critical sections each (read-yield-write increments), released by reset(), '
-                                         'scope exit, moved unique_ptr, or reset followed by re-acquisition; a second MutexWrapped<T> instance used nested inside the first and alone; one TSan binary per namespace prefix'}
+                                         'scope exit (also by exception), moved unique_ptr, or reset followed by re-acquisition; a second MutexWrapped<T> instance used nested inside the first and alone; one TSan binary per namespace prefix'}
     cov['evaluations'] = cov.get('evaluations', 0) + runs
     cov['distinct_nontrivial'] = cov.get('distinct_nontrivial', 0) + len(nontrivial)
     if sample:
